@@ -16,9 +16,10 @@ def pos_col(p):
 class Fn:
     __slots__ = ("crate", "path", "kind", "file", "lo", "hi", "def_line", "unsafe", "vis", "tf", "macro",
                  "parent", "impl_of", "trait_of", "argc", "locals", "blocks", "captures", "upvar_names",
-                 "_dom", "_preds", "_idom")
+                 "_dom", "_preds", "_idom", "_cache")
 
     def __init__(self):
+        self._cache = {}
         self._dom = None
         self._preds = None
         self._idom = None
